@@ -424,7 +424,8 @@ def _judge_factorization(variables, graph, res, exc):
 
     # a name that is summed over (an ancestor outside the query) and is also a literal subscript of the query
     summed = {a[0] for a in anc_union} - {c[0] for c in ev}
-    captured = bool(summed & {i for c in ev for i, _ in c[1]})
+    # (a '+' subscript stays distinguishable: y0 writes summation indices and added parents as '-')
+    captured = bool(summed & {i for c in ev for i, sg in c[1] if not sg})
 
     def mech(kind):
         if two_values or captured:
@@ -578,6 +579,7 @@ def _judge_ctf(label, snap, res, exc):
     summed = {a[0] for a in anc_union} - {c[0] for c in query}
     if label == "ctfTR":
         summed |= {c[0] for c in out_ev}  # the conditional procedure normalises by summing over the outcome variables
+    # (ctfTRu/ctfTR answers carry no subscripts at all, so the sign of the literal subscript makes no difference here)
     captured = bool(summed & {i for c in query for i, _ in c[1]})
     reflexive = any(c[0] in {i for i, _ in c[1]} for c in query)
 
